@@ -15,11 +15,15 @@ use std::rc::Rc;
 pub struct BodyInfo<'tcx> {
     pub inst: Instance<'tcx>,
     pub name: String,
+    /// last path segment of the definition (for call paths)
+    pub short: String,
     pub body: mir::Body<'tcx>,
     pub cfg: Cfg,
     pub scalar: bool,
     pub ret_bool: bool,
     pub local: bool,
+    /// pure function of its (dereferenced) arguments: shared references / integers in, no references out
+    pub pure_args: bool,
 }
 
 #[derive(Clone, Debug)]
@@ -32,6 +36,8 @@ pub struct Site {
     pub violated: bool,
     pub witness: String,
     pub roots: BTreeSet<String>,
+    /// compact call paths (function names without generics) under which the site was violated
+    pub ctxs: BTreeSet<String>,
 }
 
 #[derive(Clone, Debug)]
@@ -67,8 +73,10 @@ pub struct Interp<'tcx> {
     pub rng_mode: u8, // 0 = both outcomes, 1 = force Ok, 2 = force Err
     pub leaks: BTreeMap<String, String>,
     pub taint_track: bool,
-    pub memo: HashMap<(Instance<'tcx>, Vec<(i128, i128, u8)>), (Vec<Val>, Vec<String>)>,
+    pub memo: HashMap<(Instance<'tcx>, Vec<(i128, i128, u8)>), (Vec<Val>, Vec<(String, Vec<String>)>)>,
     pub memo_hits: u64,
+    pub pmemo: HashMap<Instance<'tcx>, Vec<(Vec<Val>, Vec<Val>, Vec<(String, Vec<String>)>)>>,
+    pub pmemo_hits: u64,
     pub prof: BTreeMap<String, (u64, u128)>,
     pub trace_on: bool,
     pub trace_pat: String,
@@ -77,6 +85,7 @@ pub struct Interp<'tcx> {
     pub pending_origin: Option<(u32, Ptr, u32)>,
     pub pending_bdef: Option<(u32, BoolDef)>,
     pub pending_discr: Option<(u32, Ptr)>,
+    pub probe_pats: Vec<String>,
     pub ret_key: u8,
     pub next_atom: usize,
     pub cur_bb: usize,
@@ -124,6 +133,8 @@ impl<'tcx> Interp<'tcx> {
             taint_track: false,
             memo: HashMap::new(),
             memo_hits: 0,
+            pmemo: HashMap::new(),
+            pmemo_hits: 0,
             prof: BTreeMap::new(),
             trace_on: std::env::var("VERIF_TRACE").is_ok(),
             trace_pat: std::env::var("VERIF_TRACE").unwrap_or_default(),
@@ -132,6 +143,7 @@ impl<'tcx> Interp<'tcx> {
             pending_origin: None,
             pending_bdef: None,
             pending_discr: None,
+            probe_pats: Vec::new(),
             ret_key: 3,
             next_atom: 0,
             cur_bb: 0,
@@ -176,9 +188,24 @@ impl<'tcx> Interp<'tcx> {
             _ => ity_of(rt).is_some() || is_result_of_int(rt),
         };
         scalar = scalar && ret_scalar && !self.tcx.is_closure_like(inst.def_id());
+        let mut pure_args = !scalar && !rt.is_bool() && !self.tcx.is_closure_like(inst.def_id()) && body.arg_count > 0 && !has_ref(rt);
+        for l in body.args_iter() {
+            let t = body.local_decls[l].ty;
+            let ok = match t.kind() {
+                ty::Ref(_, inner, m) => !m.is_mut() && !has_ref(*inner) && !matches!(inner.kind(), ty::Param(_) | ty::Dynamic(..)),
+                _ => !has_ref(t) && !matches!(t.kind(), ty::Param(_)),
+            };
+            if !ok {
+                pure_args = false;
+            }
+        }
+        let dn = crate::facts::def_name(self.tcx, inst.def_id());
+        let short = dn.rsplit("::").next().unwrap_or(&dn).to_string();
         let info = Rc::new(BodyInfo {
             inst,
             name,
+            short,
+            pure_args,
             ret_bool: rt.is_bool(),
             body,
             cfg,
@@ -476,6 +503,13 @@ impl<'tcx> Interp<'tcx> {
         id
     }
 
+}
+
+pub fn has_ref<'tcx>(t: Ty<'tcx>) -> bool {
+    t.walk().any(|a| match a.kind() {
+        ty::GenericArgKind::Type(x) => matches!(x.kind(), ty::Ref(..) | ty::RawPtr(..) | ty::FnPtr(..) | ty::Closure(..) | ty::Dynamic(..) | ty::Param(_)),
+        _ => false,
+    })
 }
 
 pub fn is_result_of_int<'tcx>(t: Ty<'tcx>) -> bool {
